@@ -12,6 +12,7 @@ Ranks are numpy float ranks on the implementation side and certificate-checked e
 from ..coqrun import cZ, cnat, clist
 from ..gen import c17_exact as X
 from ..gen import c17_nets as G
+from ..gen import c19_adv as ADV
 from .C17 import build, view_of, cnet, _cstr, crcert, ref_matrix
 from ..tok import S as SET
 
@@ -28,9 +29,10 @@ EXPLANATION = ("quick: ALL sets of 1..2 reactions over the 90 reactions between 
                "thorough: ALL sets of 1..3 such reactions (121 575) and ALL sets of 1..2 reactions with coefficients in {0,1,2} over 3 species "
                "up to species permutation (~4.5e4).  Plus seeded random networks <= 6-7 species x 6 reactions, mass-balanced random networks, "
                "textbook networks with known deficiency (A+B<->C: 0, Edelstein: 1, futile cycles: 1 and 2, Horn-Jackson: 2, ...) and the regression corpus.  "
-               "Theorems: complexes = distinct reactant/product vectors (NoDup, complete), linkage classes = connected components, weak "
-               "reversibility <-> every class strongly connected, deficiency formula with the certified rank; delta >= 0 and sum of class "
-               "deficiencies <= delta are checked per input with exact ranks.")
+               "Theorems (all inputs, closed under the global context): complexes = the distinct reactant/product vectors (NoDup, complete, vectors equal iff "
+               "multisets equal), complex-graph arcs, linkage classes = connected components (partition, same class iff undirected path; fuel suffices), weak "
+               "reversibility <-> every class strongly connected <-> every arc has a return path, deficiency = n - l - exact (MathComp) rank, "
+               "rank S + l <= n hence deficiency >= 0, and sum of class deficiencies <= deficiency (ranks certified by the proved checker).")
 TRUSTED_BASE = [
     "Coq 8.16.1 kernel + vm_compute (no native_compute)",
     "MathComp 1.15 (\\rank over rat) + mathcomp.zify for lib/RankBridge.v, axiom-free",
@@ -42,19 +44,25 @@ TRUSTED_BASE = [
 ASSUMPTIONS = ["species labels, rule labels and edge ids are printable ASCII strings",
                "network given as CRNHyperGraph (or its directed hypergraph_to_bipartite export); edge ids unique; sides are dicts with positive integer counts"]
 TESTED_NOT_PROVED = [
-    "deficiency >= 0 for every generated network (exact ranks; CRNT theorem, not proved in Coq)",
-    "sum of linkage-class deficiencies <= network deficiency for every generated network (exact ranks; not proved in Coq)",
-    "numpy float ranks equal the certified exact ranks (per input)",
+    "numpy float ranks (matrix_rank of S and of each class's difference vectors) equal the certified exact ranks (per input)",
+    "networkx connected_components / is_strongly_connected / strongly_connected_components agree with the model's closures (per input)",
+    "regularity flag, deficiency-zero / deficiency-one front ends: modelled and compared per input, no theorem",
     "textbook deficiencies equal the literature values (per network)",
+    "deficiency >= 0 and sum of class deficiencies <= deficiency are PROVED for the model (C19_nonneg, C19_linkage_sum); the oracle also checks them per input on the implementation's numbers",
 ]
-LEVEL_TEXT = ("Machine-checked proof (Coq) about an executable model of DeficiencyAnalyzer: the complex list is duplicate free and consists "
-              "exactly of the reactant and product vectors of the reactions, the linkage classes are the connected components of the complex "
-              "graph, the weak-reversibility flag is true exactly when every class is strongly connected, and the reported deficiency is "
-              "n - l - rank with the rank justified by a certificate checked against MathComp's rank. The model is compared with the Python "
-              "code (complex list, arcs, classes, all integers and flags) on every run over an exhaustive small scope, random and textbook "
-              "networks. The CRNT inequalities (deficiency >= 0, class deficiencies sum <= deficiency) are checked per input with exact ranks.")
-LEVEL_NOTE = ("Universal: model theorems and checker soundness. Per input: float ranks vs certified ranks; the two CRNT inequalities. Trusted: "
-              "Coq kernel, MathComp, model + encoders. networkx/numpy results are compared, not trusted.")
+LEVEL_TEXT = ("Machine-checked proof (Coq) about an executable model of DeficiencyAnalyzer, for every network: the complex list is duplicate free "
+              "and consists exactly of the reactant and product vectors of the reactions (equal vectors iff equal multisets), the linkage classes "
+              "are exactly the connected components of the complex graph (a partition; same class iff joined by an undirected path), the "
+              "weak-reversibility flag is true exactly when every class is strongly connected (iff every reaction arc has a directed return path), "
+              "the deficiency is n - l - rank with the exact rank over the rationals (MathComp) justified by a checked certificate, it is never "
+              "negative (rank S + l <= n proved from S = Y*Ia), and the linkage-class deficiencies never sum to more than it. The model is compared "
+              "with the Python code (complex list, arcs, classes, all integers and flags, class deficiencies) on every run over an exhaustive small "
+              "scope, random and textbook networks; numpy's float ranks are compared with the certified exact ranks per input.")
+LEVEL_NOTE = ("Universal: all nine model theorems and checker soundness. Per input: float ranks vs certified ranks; networkx component routines vs "
+              "the model's closures; regularity and the deficiency-zero/one front ends. Trusted: Coq kernel, MathComp, model + encoders. "
+              "networkx/numpy results are compared, not trusted.")
+TECHNIQUE = ("Coq proof about a Gallina model (stdlib lists: walk invariant, lib/Reach saturation; MathComp: rank of Y*Ia, kernel of the incidence "
+             "matrix, block-rank bound) + per-run vm_compute correspondence + independent Python oracle")
 
 
 # ------------------------------------------------------------------ implementation adapter
@@ -66,14 +74,9 @@ def _analyze(Xv):
     return DeficiencyAnalyzer(Xv).compute_crn_deficiency()
 
 
-def impl(case):
+def _obs(a):
+    """Everything the analyzer object currently stores / answers."""
     import networkx as nx
-    H = build(case)
-    Xv = view_of(case, H)
-    try:
-        a = _analyze(Xv)
-    except ValueError:
-        return [2]
     su = a.summary
     d = a.as_dict()
     CG = a._complex_graph
@@ -89,6 +92,55 @@ def impl(case):
             [int(x) for x in a.linkage_deficiencies],
             True,
             bool(one["regular"]), bool(a.check_deficiency_zero()), bool(a.check_deficiency_one()), bool(one["hypotheses_satisfied"])]
+
+
+def _apply_edit(H, e):
+    if e[0] == "del":
+        H.remove_rxn(e[1])
+    else:
+        eid, rule, l, r = e[1]
+        H.add_rxn({s: c for s, c in l}, {s: c for s, c in r}, rule=rule, edge_id=eid)
+
+
+def _reanalyze(a, style):
+    """One full analysis on an EXISTING analyzer object (the two documented routes)."""
+    if style == 0:
+        a.compute_crn_deficiency()
+    else:
+        a.compute_summary()
+        a.compute_linkage_deficiencies()
+        a.run_deficiency_one_algorithm()
+
+
+def _history(case):
+    """Yield (step network as a plain case, hypergraph in its current state, the ONE analyzer after re-analysis or None on ValueError)."""
+    import warnings
+    warnings.filterwarnings("ignore")
+    from synkit.CRN.Props.deficiency import DeficiencyAnalyzer
+    H = build(case)
+    a = DeficiencyAnalyzer(H)
+    nets = ADV.apply_edits(case["rxns"], case["edits"])
+    for k, e in enumerate([None] + list(case["edits"])):
+        if e is not None:
+            _apply_edit(H, e)
+        try:
+            _reanalyze(a, case.get("style", 0))
+            ok = True
+        except ValueError:
+            ok = False
+        yield dict(kind="history-step", rxns=nets[k], iso=[], view="hyper"), H, (a if ok else None)
+
+
+def impl(case):
+    if "edits" in case:
+        return [(_obs(a) if a is not None else [2]) for _, _, a in _history(case)]
+    H = build(case)
+    Xv = view_of(case, H)
+    try:
+        a = _analyze(Xv)
+    except ValueError:
+        return [2]
+    return _obs(a)
 
 
 # ------------------------------------------------------------------ reference structures from the case alone
@@ -149,36 +201,103 @@ def _reach(adj, u):
     return seen
 
 
-def coq_case(case):
+def _coq_args(case):
     species, rx, S = ref_matrix(case)
     m, n = len(species), len(rx)
     if n == 0:
-        return "run19 %s %s %s []" % (cnet(case), clist([_cstr(z) for z in case.get("iso", [])]),
-                                      crcert(dict(r=0, A=[], B=[], A2=[], B2=[], d=1)))
+        return "%s %s %s []" % (cnet(case), clist([_cstr(z) for z in case.get("iso", [])]),
+                                crcert(dict(r=0, A=[], B=[], A2=[], B2=[], d=1)))
     rc = X.rank_cert(S, m, n)
     _, cx, arcs, classes = ref_complexes(case)
     ccs = []
     for cl in classes:
         D = class_diffs(cx, arcs, cl)
         ccs.append(crcert(X.rank_cert(D, len(D), m)))
-    return "run19 %s %s %s %s" % (cnet(case), clist([_cstr(z) for z in case.get("iso", [])]), crcert(rc), clist(ccs))
+    return "%s %s %s %s" % (cnet(case), clist([_cstr(z) for z in case.get("iso", [])]), crcert(rc), clist(ccs))
+
+
+def coq_case(case):
+    if "edits" in case:
+        steps = []
+        for rxns in ADV.apply_edits(case["rxns"], case["edits"]):
+            a = _coq_args(dict(rxns=rxns, iso=[], view="hyper"))
+            steps.append("(%s)" % ", ".join(_split_args(a)))
+        return "run19_hist %s" % clist(steps)
+    return "run19 " + _coq_args(case)
+
+
+def _split_args(a):
+    """The four top-level arguments of a run19 argument string (each is a bracketed list or a parenthesised term)."""
+    out, depth, cur = [], 0, ""
+    for ch in a:
+        if ch in "([":
+            depth += 1
+        elif ch in ")]":
+            depth -= 1
+        if ch == " " and depth == 0:
+            if cur:
+                out.append(cur)
+            cur = ""
+        else:
+            cur += ch
+    if cur:
+        out.append(cur)
+    assert len(out) == 4, len(out)
+    return out
 
 
 # ------------------------------------------------------------------ property oracle
 
 def oracle(case):
+    if "edits" in case:
+        return _oracle_history(case)
     H = build(case)
     Xv = view_of(case, H)
-    fails = []
-
-    def bad(clause, detail):
-        fails.append(dict(clause=clause, detail=detail))
     try:
         a = _analyze(Xv)
     except ValueError as e:
         if H.edges:
-            bad("complexes", "analysis raised ValueError on a network with reactions: %s" % e)
-        return fails
+            return [dict(clause="complexes", detail="analysis raised ValueError on a network with reactions: %s" % e)]
+        return []
+    return _oracle_on(a, H, case)
+
+
+def _oracle_history(case):
+    """Every answer of the ONE re-used analyzer must (1) satisfy the property for the network as it is NOW and (2) equal the
+    answers of a fresh analyzer on a freshly built copy of that network."""
+    fails = []
+    for k, (step, H, a) in enumerate(_history(case)):
+        if a is None:
+            if H.edges:
+                fails.append(dict(clause="history-complexes", detail="step %d: ValueError on a network with reactions" % k))
+            continue
+        for f in _oracle_on(a, H, step):
+            fails.append(dict(clause="history-" + f["clause"], detail="step %d (same analyzer object, network edited): %s" % (k, f["detail"])))
+        fresh = impl(step)
+        same = _obs(a)
+        if _plain(fresh) != _plain(same):
+            fails.append(dict(clause="history-stale-state",
+                              detail="step %d: re-used analyzer answers %r, a fresh analyzer on the same network %r" % (k, _plain(same), _plain(fresh))))
+        if fails:
+            break
+    return fails[:4]
+
+
+def _plain(o):
+    if isinstance(o, dict) and set(o) == {"__set__"}:
+        return ["set"] + sorted(repr(_plain(x)) for x in o["__set__"])
+    if isinstance(o, (list, tuple)):
+        return [_plain(x) for x in o]
+    return o
+
+
+def _oracle_on(a, H, case):
+    """The property, checked on the answers stored in analyzer [a] against an independent reference computed from the
+    hypergraph H (the network [a] is supposed to describe)."""
+    fails = []
+
+    def bad(clause, detail):
+        fails.append(dict(clause=clause, detail=detail))
     su = a.summary
     species = sorted(H.species)
     edges = list(H.edges.values())
@@ -249,6 +368,8 @@ def oracle(case):
 
 
 def shrink(case, fl):
+    if "edits" in case:
+        return case
     cur = dict(case)
     cur.pop("delta", None)
     cur.pop("wr", None)
@@ -278,13 +399,23 @@ def shrink(case, fl):
 
 
 def neighbours(case, rng):
+    if "edits" in case:
+        return []
     out = []
     for k in range(len(case["rxns"])):
         out.append(dict(case, rxns=case["rxns"][:k] + case["rxns"][k + 1:], name="drop-rxn"))
     return [c for c in out if c["rxns"]]
 
 
+def _last(case, obs):
+    """For a history the last step's observable stands for the case."""
+    if "edits" in case and isinstance(obs, list) and obs and isinstance(obs[-1], list):
+        return obs[-1]
+    return obs
+
+
 def nontrivial(case, obs):
+    obs = _last(case, obs)
     return isinstance(obs, list) and len(obs) > 4 and len(obs[1]) >= 2
 
 
@@ -292,7 +423,13 @@ def distribution(cases, obss):
     nc, nl, dl, wr, reg = {}, {}, {}, {}, {}
     err = 0
     ldpos = 0
+    big = hist = 0
     for c, o in zip(cases, obss):
+        o = _last(c, o)
+        if "edits" in c:
+            hist += 1
+        if len({x for _, _, l, r in c["rxns"] for x, _ in l + r}) >= 10:
+            big += 1
         if not (isinstance(o, list) and len(o) == 11):
             err += 1
             continue
@@ -305,7 +442,7 @@ def distribution(cases, obss):
         if any(x > 0 for x in o[5]):
             ldpos += 1
     return dict(n_complexes=nc, n_linkage_classes=nl, deficiency=dl, weakly_reversible=wr, regular=reg,
-                some_class_deficiency_positive=ldpos, errors=err)
+                some_class_deficiency_positive=ldpos, errors=err, histories=hist, at_least_10_species=big)
 
 
 # ------------------------------------------------------------------ generators
@@ -326,5 +463,8 @@ def gen_cases(tier, rng):
         cases.append(G.random_net(rng, max_s=rng.choice([6, 6, 7]), max_r=6, maxc=rng.choice([2, 2, 3])))
     for _ in range(ncons):
         cases.append(G.conservative_net(rng))
+    cases += ADV.bridged_cycles(rng, nrand=30 if tier == "quick" else 300)
+    cases += ADV.big_nets(rng, count=40 if tier == "quick" else 400)
+    cases += ADV.histories(rng, nrand=50 if tier == "quick" else 500)
     cases.append(dict(kind="degenerate", rxns=[], iso=[], view="hyper"))
     return cases
